@@ -399,6 +399,11 @@ func (c *intfnCtx) stmts(fi *fnInfo, list []ast.Stmt, d int) (string, error) {
 			return "", err
 		}
 		return fmt.Sprintf("%sif %s then\n%s\n%selse\n%s", ind(d), cond, th, ind(d), el), nil
+	case *ast.ExprStmt:
+		// a pure logging statement (`logger.Debug()....Msg(…)`) does not change what is returned: skipped
+		if isLoggerCall(s.X) {
+			return c.stmts(fi, rest, d)
+		}
 	case *ast.DeclStmt:
 		gd, ok := s.Decl.(*ast.GenDecl)
 		if !ok || len(gd.Specs) != 1 {
@@ -423,6 +428,25 @@ func (c *intfnCtx) stmts(fi *fnInfo, list []ast.Stmt, d int) (string, error) {
 	}
 	return "", fmt.Errorf("statement %T unsupported at %s", s, c.fset.Position(s.Pos()))
 }
+
+// isLoggerCall: a call chain rooted at the package-level identifier `logger` (zerolog style).
+func isLoggerCall(e ast.Expr) bool {
+	for {
+		switch x := e.(type) {
+		case *ast.CallExpr:
+			e = x.Fun
+		case *ast.SelectorExpr:
+			e = x.X
+		case *ast.Ident:
+			return x.Name == "logger"
+		default:
+			return false
+		}
+	}
+}
+
+// named integer types of /repo whose conversion is the identity on Int (range is the theorems' hypothesis)
+var namedIntTypes = map[string]bool{"types.BlockNo": true, "bp.Index": true, "Index": true, "BlockNo": true}
 
 func endsInReturn(l []ast.Stmt) bool {
 	if len(l) == 0 {
@@ -524,6 +548,9 @@ func (c *intfnCtx) expr(fi *fnInfo, e ast.Expr) (string, error) {
 	case *ast.CallExpr:
 		// integer conversion
 		if id, ok := e.Fun.(*ast.Ident); ok && intTypes[id.Name] && len(e.Args) == 1 {
+			return c.expr(fi, e.Args[0])
+		}
+		if len(e.Args) == 1 && namedIntTypes[exprString(e.Fun)] && c.callKey(fi, e) == "" {
 			return c.expr(fi, e.Args[0])
 		}
 		key := c.callKey(fi, e)
